@@ -301,7 +301,7 @@ impl Check for C11 {
     }
 
     fn rule(&self) -> String {
-        "native part: each seeded run performs 2-6 fresh parameter constructions in a seeded order over (bits, capacity) <= (64, 32) and extension degree 1..6, on Ristretto and on the free module; after each construction all 2*bits*capacity + 1 + ext generators are compared with a reference derivation written in the harness (SHA3-512 labelled masking points; per-party SHAKE256 chains read in 64-byte blocks; Ristretto base point), checked pairwise distinct and non-identity, the compressed accessors compared with the encodings of the points, and one random linear combination evaluated through precomp() compared with the naive interleaved sum; fresh-process part: the lazily initialised statics are first used in different orders in separate processes; schedule part: Miri interprets 2-4 real threads racing the first use of both statics under seeded schedules and three preemption rates, with its data-race detector on; one evaluation = one construction checked or one Miri execution; distinct = distinct event-log hashes + distinct schedule signatures".into()
+        "native part: each seeded run performs 2-6 fresh parameter constructions in a seeded order over (bits, capacity) <= (64, 32) and extension degree 1..6, on Ristretto and on the free module; after each construction all 2*bits*capacity + 1 + ext generators are compared with a reference derivation written in the harness (SHA3-512 labelled masking points; per-party SHAKE256 chains read in 64-byte blocks; Ristretto base point), checked pairwise distinct and non-identity, the compressed accessors compared with the encodings of the points, positions reached through the public accessors by jumps (nth, skip, step_by, last; on, before and after party boundaries) compared with stepping, and one random linear combination evaluated through precomp() compared with the naive interleaved sum; fresh-process part: the lazily initialised statics are first used in different orders in separate processes; schedule part: Miri interprets 2-4 real threads racing the first use of both statics under seeded schedules and three preemption rates, with its data-race detector on; one evaluation = one construction checked or one Miri execution; distinct = distinct event-log hashes + distinct schedule signatures".into()
     }
 
     fn assumptions(&self) -> Vec<String> {
